@@ -26,6 +26,9 @@ def run(cmd, cwd, timeout=3600, extra=None):
 def main():
     prop, inbox, n = sys.argv[1], sys.argv[2], int(sys.argv[3])
     skip = "--skip-existing-tests" in sys.argv
+    chk = prop
+    if "--check" in sys.argv:
+        chk = sys.argv[sys.argv.index("--check") + 1]
     tier = "quick"
     metas = json.load(open(os.path.join(inbox, "meta.json")))
     meta = metas[n - 1]
@@ -83,14 +86,14 @@ def main():
         run(["git", "apply", patch], wt)
         # the check
         t0 = time.time()
-        evf = os.path.join(V, "evidence", prop + ".json")
+        evf = os.path.join(V, "evidence", chk + ".json")
         saved = open(evf).read() if os.path.exists(evf) else None
-        rc, out = run([os.path.join(V, "vcheck"), prop, "--tier", tier], V, 7200, {"VERIF_REPO": wt})
+        rc, out = run([os.path.join(V, "vcheck"), chk, "--tier", tier], V, 7200, {"VERIF_REPO": wt})
         if saved is not None:
             open(evf, "w").write(saved)  # evidence must describe runs against /repo only
         viol = [l for l in out.splitlines() if l.startswith("VIOLATION")]
         inc = [l for l in out.splitlines() if l.startswith("INCONCLUSIVE")]
-        res["check"] = {"cmd": "VERIF_REPO=%s ./vcheck %s --tier %s" % (wt, prop, tier), "exit": rc, "violations": viol[:5],
+        res["check"] = {"cmd": "VERIF_REPO=%s ./vcheck %s --tier %s" % (wt, chk, tier), "exit": rc, "violations": viol[:5],
                         "inconclusive": inc[:5], "detail": [l for l in out.splitlines() if l.startswith("  entry=")][:5],
                         "wall_s": round(time.time() - t0)}
         res["detected"] = rc == 1 and bool(viol)
